@@ -21,6 +21,7 @@ const modPath = "github.com/couchbase/sync_gateway"
 type Ctx struct {
 	RepoDir string
 	Tier    string
+	callerCount map[*ssa.Function]map[*ssa.Function]bool
 	Fset    *token.FileSet
 	Pkgs    []*packages.Package // root packages
 	AllPkgs map[string]*packages.Package
